@@ -185,27 +185,48 @@ fn pm_pair(plus: bool, b1: u64, b2: f64, primes: &[u64], edges_only: bool) -> Ta
             t.bad.push(b);
         }
     }
-    // Three prime factors (P-1 only): p1 is promised by stage 1 with the largest prime of its
-    // p1-1 in the LAST stage-1 block (just below B1), p by stage 2, q resistant. The answer must
-    // still multiply to n and separate both promised primes: the ring is shrunk between stages.
-    if !plus && !edges_only {
+    // Three prime factors: p1 is promised by stage 1 with the largest prime of its p1-+1 in the
+    // LAST stage-1 block (just below B1), p by stage 2, q resistant. The answer must still
+    // multiply to n and separate both promised primes: the ring is shrunk between stages, and
+    // every constant carried across the shrink must be re-expressed in the new ring.
+    // For P+1 one seed must have a non-residue discriminant modulo p1 and modulo p.
+    if !edges_only {
         let below: Vec<u64> = primes.iter().cloned().filter(|&x| x < b1 && x > b1 / 2 && x > 3).rev().take(3).collect();
         let ls3: Vec<u64> = {
             let v: Vec<u64> = primes.iter().cloned().filter(|&l| l > b1 && (l as f64) <= 0.9 * b2rep).collect();
             let n = v.len();
             if n == 0 { vec![] } else { vec![v[0], v[n / 3], v[n / 2], v[n - 1]] }
         };
+        let nonres = |seed: u64, p: u64| -> bool {
+            let d = (seed * seed - 4) % p;
+            d != 0 && powmod(d, (p - 1) / 2, p) == p - 1
+        };
+        let mk = |s: u64, l: u64| if plus { s * l - 1 } else { s * l + 1 };
         for &tp in &below {
-            // p1 = s*tp + 1 with s even dividing the stage-1 exponent
-            let Some(p1) = (2..=400u64).step_by(2).filter(|&s| stage1_divides(s, b1)).map(|s| s * tp + 1).find(|&x| rm::is_prime_u64(x) && x != q) else { continue };
+            // p1 = s*tp +- 1 with s even dividing the stage-1 exponent
+            let p1s: Vec<u64> = (2..=400u64).step_by(2).filter(|&s| stage1_divides(s, b1)).map(|s| mk(s, tp)).filter(|&x| rm::is_prime_u64(x) && x != q).take(if plus { 6 } else { 1 }).collect();
             for &l in &ls3 {
-                let Some(p) = (2..=2000u64).step_by(2).filter(|&s| stage1_divides(s, b1)).map(|s| s * l + 1).find(|&x| rm::is_prime_u64(x) && x != q && x != p1) else { continue };
+                let mut case: Option<(u64, u64, u64)> = None;
+                'search: for &p1 in &p1s {
+                    for p in (2..=2000u64).step_by(2).filter(|&s| stage1_divides(s, b1)).map(|s| mk(s, l)).filter(|&x| rm::is_prime_u64(x) && x != q && x != p1).take(if plus { 6 } else { 1 }) {
+                        if !plus {
+                            case = Some((p1, p, 0));
+                            break 'search;
+                        }
+                        if let Some(seed) = (3..=20u64).find(|&sd| nonres(sd, p1) && nonres(sd, p)) {
+                            case = Some((p1, p, seed));
+                            break 'search;
+                        }
+                    }
+                }
+                let Some((p1, p, seed)) = case else { continue };
                 let n = Uint::from_digit(p1) * Uint::from_digit(p) * Uint::from_digit(q);
                 t.evals += 1;
                 t.promised += 1;
-                match guarded(|| pollard_pm1::pm1_impl(&n, b1, b2, Verbosity::Silent)) {
-                    Err(e) => t.bad.push((format!("method=pm1;what=panic;site={}", e.site), format!("pm1(n={}*{}*{}, B1={}, B2={:e}) panicked: {}", p1, p, q, b1, b2, e.short()))),
-                    Ok(None) => t.bad.push((format!("method=pm1;row={:e};what=missed-3-factors", b2rep), format!("pm1(n={}*{}*{}, B1={}, B2={:e}) returned None although {} is promised by stage 1 and {} by stage 2", p1, p, q, b1, b2, p1, p))),
+                let call = format!("{}(n={}*{}*{}, {}B1={}, B2={:e})", name, p1, p, q, if plus { format!("seed {}, ", seed) } else { String::new() }, b1, b2);
+                match guarded(|| if plus { pp1::pp1(n, seed, b1, b2, Verbosity::Silent) } else { pollard_pm1::pm1_impl(&n, b1, b2, Verbosity::Silent) }) {
+                    Err(e) => t.bad.push((format!("method={};what=panic;site={}", name, e.site), format!("{} panicked: {}", call, e.short()))),
+                    Ok(None) => t.bad.push((format!("method={};row={:e};what=missed-3-factors", name, b2rep), format!("{} returned None although {} is promised by stage 1 and {} by stage 2", call, p1, p))),
                     Ok(Some((fs, rest))) => {
                         t.shapes += 1;
                         let nw = rm::w_from(&n);
@@ -213,9 +234,9 @@ fn pm_pair(plus: bool, b1: u64, b2: f64, primes: &[u64], edges_only: bool) -> Ta
                         parts.push(rm::w_from(&rest));
                         let prod = parts.iter().fold(W::ONE, |a, b| a * *b);
                         if prod != nw || fs.iter().any(|x| rm::w_from(x) <= W::ONE) {
-                            t.bad.push(("method=pm1;what=bad-shape-3-factors".into(), format!("pm1(n={}*{}*{}, B1={}, B2={:e}) returned factors {:?} and cofactor {}: product is not n", p1, p, q, b1, b2, fs, rest)));
+                            t.bad.push((format!("method={};what=bad-shape-3-factors", name), format!("{} returned factors {:?} and cofactor {}: product is not n", call, fs, rest)));
                         } else if !parts.contains(&W::from_digit(p1)) || !parts.contains(&W::from_digit(p)) {
-                            t.bad.push(("method=pm1;what=no-split-3-factors".into(), format!("pm1(n={}*{}*{}, B1={}, B2={:e}) returned {:?} and {}: the two promised primes are not both separated", p1, p, q, b1, b2, fs, rest)));
+                            t.bad.push((format!("method={};what=no-split-3-factors", name), format!("{} returned {:?} and {}: the two promised primes are not both separated", call, fs, rest)));
                         }
                     }
                 }
@@ -560,6 +581,75 @@ pub fn run(ctx: &Ctx) -> Report {
             ("gcd_factors small scope".into(), t)
         }));
     }
+    // ---- the 64-bit two-stage P-1 (PM1Base::factor): its budget fixes the stage-1 blocks and the
+    // number pmax = min(65536, budget - 1000) of stage-2 primes it pays for. For every budget of
+    // the list and EVERY stage-2 prime l among the first pmax, p = s*l + 1 (least even s dividing
+    // the stage-1 exponent as the base builds it) is paired with a safe prime q whose q-1 = 2r has
+    // r above every stage-2 prime: the call must return the split {p, q}.
+    for budget in [1100usize, 1500, 2000, 5000, 20000, 40000, 66536, 100000] {
+        jobs.push(Box::new(move || {
+            let mut t = Tally::new();
+            let pb = pollard_pm1::PM1Base::new();
+            let (blocks, larges) = pollard_pm1::verif_access::pm1base_blocks(&pb);
+            // stage-1 exponent: product of the blocks the budget pays for (all of them from 1024 on)
+            let fmax = blocks.len().min(budget * blocks.len() / 1024);
+            let mut e1 = W::ONE;
+            for &b in &blocks[..fmax] {
+                e1 = e1 * W::from_digit(b as u64);
+            }
+            let pmax = larges.len().min(budget - 1000);
+            // q = 2r + 1 with r prime just above 2^30: ord_q(2) is r or 2r, beyond every bound
+            let q = {
+                let mut r = rm::next_prime_u64(1 << 30);
+                while !rm::is_prime_u64(2 * r + 1) {
+                    r = rm::next_prime_u64(r + 1);
+                }
+                2 * r + 1
+            };
+            let res: Vec<(u64, Option<(String, String)>, bool)> = larges[..pmax]
+                .par_iter()
+                .map(|&l| {
+                    let l = l as u64;
+                    let mut s = 2u64;
+                    let mut p = 0;
+                    while s <= 4000 {
+                        if (e1 % W::from_digit(s)).is_zero() && rm::is_prime_u64(s * l + 1) {
+                            p = s * l + 1;
+                            break;
+                        }
+                        s += 2;
+                    }
+                    if p == 0 || (p as u128 * q as u128) >> 64 != 0 {
+                        return (l, None, false);
+                    }
+                    let n = p * q;
+                    let bad = match guarded(|| pb.factor(n, budget)) {
+                        Err(e) => Some((format!("method=pm1base;what=panic;site={}", e.site), format!("PM1Base::factor({} = {}*{}, budget {}) panicked: {}", n, p, q, budget, e.short()))),
+                        Ok(Some((a, b))) if (a, b) == (p, q) || (a, b) == (q, p) => None,
+                        Ok(Some((a, b))) => Some(("method=pm1base;what=bad-split".into(), format!("PM1Base::factor({} = {}*{}, budget {}) returned ({}, {})", n, p, q, budget, a, b))),
+                        Ok(None) => Some((
+                            format!("method=pm1base;row={};what=missed;MISS={}", budget, l),
+                            format!("PM1Base::factor({} = {}*{}, budget {}) returned None although p-1 = {} * {} with {} dividing the stage-1 exponent and {} among the first {} stage-2 primes", n, p, q, budget, s, l, s, l, pmax),
+                        )),
+                    };
+                    (l, bad, true)
+                })
+                .collect();
+            for (_l, bad, constructed) in res {
+                t.evals += 1;
+                if constructed {
+                    t.promised += 1;
+                    t.shapes += 1;
+                } else {
+                    t.not_constructible += 1;
+                }
+                if let Some(b) = bad {
+                    t.bad.push(b);
+                }
+            }
+            (format!("PM1Base::factor budget {} (every stage-2 prime it pays for)", budget), t)
+        }));
+    }
     // ---- return shape of the remaining routines on small composites
     {
         let primes = primes.clone();
@@ -638,7 +728,7 @@ pub fn run(ctx: &Ctx) -> Report {
     rep.sample(J::obj(vec![("method", J::s("pm1_impl")), ("B1", J::from(120u64)), ("B2", J::s("1e5 (row d1=240, d2=512)")), ("l", J::s("every prime in (120, 1e5]")), ("p", J::s("least prime s*l+1 with s | stage-1 exponent"))]));
     rep.sample(J::obj(vec![("method", J::s("pp1")), ("B1", J::from(16u64)), ("B2", J::from(660u64)), ("seed", J::s("least seed in 3..20 with (seed^2-4 | p) = -1"))]));
     rep.sample(J::obj(vec![("method", J::s("ecm128 / ecm single curve")), ("curve", J::s("Suyama-11 seeds 2..9")), ("p", J::s("every prime in [2^10, 2^13) whose generator order is B1-smooth times at most one prime <= reported B2"))]));
-    rep.rule = "P-1 and P+1: for each listed (B1,B2) pair (strategy-table pairs and table rows; B1 also tiny and d1/2) and for EVERY prime l in (B1, reported B2] (for the larger rows up to 4e6/18e6: every prime of the top 1% and of the band just above B1): the least even s dividing the stage-1 exponent (prime powers as the routines build them) with p = s*l+1 (P-1) / s*l-1 and a seed of non-residue discriminant (P+1) prime; n = p*q with q a prime whose q-1 and q+1 both have a prime factor above 10*B2; the run must return a split containing p. ECM (ecm128 and ecm single-curve routines, Suyama-11 seeds 2..9): for EVERY prime p in [2^10, 2^13/2^16) the order structure of the real curve's generator modulo p is computed with independent affine arithmetic (stage-1 exponent as the property defines it, then baby-step giant-step); every promised p is paired with two primes above max(2^20, 16 B2) whose post-stage-1 point has an order above 4x the reported B2 and the curve must split p*q for one of them. Every Some from these runs and from rho64/rho/rho_impl/PM1Base::factor/ecm_semiprime over all p*q with primes in (1000,1400): product n, parts > 1. distinct_nontrivial = promised cases.".into();
+    rep.rule = "P-1 and P+1: for each listed (B1,B2) pair (strategy-table pairs and table rows; B1 also tiny and d1/2) and for EVERY prime l in (B1, reported B2] (for the larger rows up to 4e6/18e6: every prime of the top 1% and of the band just above B1): the least even s dividing the stage-1 exponent (prime powers as the routines build them) with p = s*l+1 (P-1) / s*l-1 and a seed of non-residue discriminant (P+1) prime; n = p*q with q a prime whose q-1 and q+1 both have a prime factor above 10*B2; the run must return a split containing p. ECM (ecm128 and ecm single-curve routines, Suyama-11 seeds 2..9): for EVERY prime p in [2^10, 2^13/2^16) the order structure of the real curve's generator modulo p is computed with independent affine arithmetic (stage-1 exponent as the property defines it, then baby-step giant-step); every promised p is paired with two primes above max(2^20, 16 B2) whose post-stage-1 point has an order above 4x the reported B2 and the curve must split p*q for one of them. Every Some from these runs and from rho64/rho/rho_impl/PM1Base::factor/ecm_semiprime over all p*q with primes in (1000,1400): product n, parts > 1. PM1Base::factor (64-bit two-stage P-1): budgets {1100,1500,2000,5000,20000,40000,66536,100000} x EVERY stage-2 prime the budget pays for (up to all 65536), p = s*l+1 with s dividing the stage-1 blocks, q a safe prime above 2^31: the split {p,q} must be returned. distinct_nontrivial = promised cases.".into();
     rep.assumptions.push("promise evaluated with the harness' own arithmetic; 'reported B2' = the table row value the routine prints (min with the requested B2 for the P-1 prime walk)".into());
     rep
 }
